@@ -461,18 +461,23 @@ def parent_ok(P, f):
         if x['kind'] in ('none_prop',):
             continue
         vals.append(opt_norm(f, expand(f, x['expr'])))
-    # form 1: (!is_empty).then(|| ItemPath(self.0[..len-1].to_vec()))
+    # form 1: an Option chain — (!is_empty).then(|| ItemPath(self.0[..len-1].to_vec())), len.checked_sub(1).map(|n| ItemPath(self.0[..n]..))
     if len(ex) == 1:
         e = strip(expand(f, ex[0]['expr']))
-        if e[0] == 'call' and re.search(r'bool>?::then$', e[1]) and len(e[2]) == 2:
-            c = strip(e[2][0])
-            nonempty = (c[0] == 'un' and c[1] == 'Not' and is_call(strip(c[2]), '::is_empty') and strip(strip(c[2])[2][0]) in (('field', ('arg', 1, 'self'), '0'), ('arg', 1, 'self'))) or \
-                (c[0] == 'bin' and c[1] in ('Gt', 'Ne') and is_call(strip(c[2]), '::len') and is_int(c[3], 0))
-            pf = predicate_fn(P, e[2][1])
-            body = None
-            if pf is not None and len(pf.exits()) == 1:
-                body = subst_closure(pf, expand(pf, pf.exits()[0]['expr']), [], e[2][1][2] if e[2][1][0] == 'closure' else [])
-            return bool(nonempty and body is not None and _all_but_last(body)), show(e)[:80]
+        if e[0] == 'call' and re.search(r'bool>?::(then|then_some)$|Option::<T>::(map|and_then|filter)$', e[1]):
+            from guards import canon_pred
+            conds, body = opt_sem(f, e)
+            conds = [canon_pred(c_) for c_ in conj_simplify(conds)]
+            selfv = (('field', ('arg', 1, 'self'), '0'), ('arg', 1, 'self'))
+
+            def nonempty(c):
+                c = strip(c)
+                if c[0] == 'un' and c[1] == 'Not' and is_call(strip(c[2]), '::is_empty') and strip(strip(c[2])[2][0]) in selfv:
+                    return True
+                if c[0] == 'bin' and is_call(strip(c[2]), '::len') and strip(strip(c[2])[2][0]) in selfv:
+                    return (c[1] in ('Gt', 'Ne') and is_int(c[3], 0)) or (c[1] == 'Ge' and is_int(c[3], 1))
+                return False
+            return bool(len(conds) == 1 and nonempty(conds[0]) and _all_but_last(body)), show(e)[:80]
     # form 2: let (_last, init) = self.0.split_last()?; Some(ItemPath(init.to_vec()))
     somes = [v for v in vals if v[0] == 'some']
     props = [x for x in ex if x['kind'] == 'none_prop']
